@@ -17,7 +17,7 @@ RULE = (
 )
 REQUIRED = ["rank_checked", "left_kernel_checked", "right_kernel_checked", "conservative_true",
             "conservative_false", "consistent_true", "consistent_false", "witness_checked",
-            "build_S_checked", "summary_checked", "kernel_dim_ge2_no_definite_column"]
+            "build_S_checked", "summary_checked", "kernel_dim_ge2_no_definite_column", "graph_tagged_by_bipartite_only", "graph_tagged_by_kind_only", "history_after_remove_species"]
 ASSUMPTIONS = [
     "float tolerances: kernel residual <= 1e-9 relative, witness residual <= 1e-6 relative, witness entries > 0",
     "positivity decisions: z3 proposes, Fraction arithmetic verifies (positive vector or Stiemke alternative)",
@@ -73,6 +73,13 @@ def check_network(ctx, net, tag="", via_graph=False):
         from synkit.CRN.Hypergraph.conversion import hypergraph_to_bipartite
         obj = hypergraph_to_bipartite(H, integer_ids=False)
         ctx.count("via_exported_graph")
+        # the documented graph conventions accept either tag: strip one of them on a rotating basis
+        mode = (len(net) + sum(len(a) + len(b) for _, a, b in net)) % 3
+        if mode:
+            drop = "bipartite" if mode == 1 else "kind"
+            for _, dd in obj.nodes(data=True):
+                dd.pop(drop, None)
+            ctx.count("graph_tagged_by_" + ("kind" if mode == 1 else "bipartite") + "_only")
 
     def bad(kind, msg, **kw):
         ctx.violation(kind, wit, msg, **kw)
@@ -174,6 +181,20 @@ def check_network(ctx, net, tag="", via_graph=False):
         bad("summary", f"summary {got} != exact {exp}")
     if sm.is_conservative != cons_real or (n_r and sm.is_consistent != cst_real):
         bad("summary", f"summary flags ({sm.is_conservative},{sm.is_consistent}) differ from the functions ({cons_real},{cst_real})")
+    # history: the same store analysed again after an in-place edit that keeps every reaction (remove_species)
+    if not via_graph:
+        cand = [s for s in sp if all(len(dict(a)) + len(dict(b)) - (s in dict(a)) - (s in dict(b)) >= 1 for _, a, b in net)]
+        if cand:
+            s0 = cand[len(net) % len(cand)]
+            H.remove_species(s0)
+            net2 = [(r, tuple(x for x in a if x[0] != s0), tuple(x for x in b if x[0] != s0)) for r, a, b in net]
+            sp2, S2 = W.exact_S(net2)
+            so3, _, Sm3 = stoich.build_S(H)
+            ctx.count("history_after_remove_species")
+            cols3 = sorted(tuple(int(round(x)) for x in Sm3[:, j]) for j in range(Sm3.shape[1]))
+            want3 = sorted(tuple(S2[i][j] for i in range(len(sp2))) for j in range(len(net2)))
+            if list(so3) != sp2 or cols3 != want3 or stoich.stoichiometric_rank(H) != X.rank(S2):
+                bad("stale-after-edit", f"after remove_species({s0!r}) the analysis still answers for the old network: rows {list(so3)} columns {cols3}, expected rows {sp2} columns {want3}")
     nontrivial = any(any(c) for c in S) and (n_s - r_exact >= 1 or n_r - r_exact >= 1 or n_r >= 2)
     ctx.case(("net", net, via_graph), nontrivial=nontrivial,
              sample={"space": tag, "reactions": W.fmt_net(net), "rank": r_exact,
